@@ -91,7 +91,8 @@ def run(ck, prog, ctx):
                     continue
                 full = pv.of_operand(fb, x.discr)
                 ks = {k for k, _ in atom_kinds(full)}
-                filtered = any(a[0] == "call" and a[1].endswith("::filter") for a in full)
+                fam_ids = {x_.id for x_ in prog.family(sub)}
+                filtered = any(a[0] == "call" and a[1].endswith("::filter") and a[3] in fam_ids for a in full)
                 vals = [v for v, _ in x.targets]
                 false_t = [tg for v, tg in x.targets if v == 0]
                 neg = any(a[0] == "op" and a[1] == "Not" for a in at)
@@ -105,7 +106,8 @@ def run(ck, prog, ctx):
             # link set: the term argument comes from record.hpo_terms() & (unfiltered ids)
             tat = pv.of_operand(fb, t.args[3]) if len(t.args) > 3 else frozenset()
             has_and = any(a[0] == "call" and "BitAnd" in a[2] and "HpoGroup" in a[2] for a in tat)
-            filt = any(a[0] == "call" and a[1].endswith("::filter") for a in tat)
+            fam_ids = {x_.id for x_ in prog.family(sub)}
+            filt = any(a[0] == "call" and a[1].endswith("::filter") and a[3] in fam_ids for a in tat)  # a filter inside the set operators' own code is not the modifier filter
             if not has_and:
                 ck.undecided("KIND", "links/sub_ontology/%s" % m, "link set is not an intersection of group sets", where=fb.where(t.line))
             else:
